@@ -181,12 +181,43 @@ def run(ctx):
                     ctx.sample({"argv": r.argv[1:], "wraps": c["wraps"], "container": c["cont"], "mtime_position": mpos, "first": r.out[:90], "messages": len(want)})
                 continue
             info = {"argv": r.argv, "env": r.env, "stderr": r.err[-300:], "mtime": c["mt"], "tz_min": c["tz"], "container": c["cont"], "wraps": c["wraps"]}
+            # known class: a 29 February message whose predecessor lies in the previous year is glued to that predecessor,
+            # which shows up as a wrong date, a missing message or a changed merge order depending on the variant
+            f29 = [j for j in range(1, len(src.msgs)) if gen.civil(src.msgs[j].ns, c["tz"])[1:3] == (2, 29)
+                   and gen.civil(src.msgs[j - 1].ns, c["tz"])[0] < gen.civil(src.msgs[j].ns, c["tz"])[0]]
+            if f29:
+                glued = src.msgs[f29[0]].token
+                gl = [g for g in got if g[0] == glued]
+                wl = [w for w in want if w[0] == glued]
+                # (got != want here) -- in such a file every variant is affected through that one message: it is printed with the
+                # predecessor's date, as part of the predecessor (so a window that selects the predecessor prints it too), or
+                # re-ordered in a merge
+                others_ok = [g for g in got if g[0] != glued] == [w for w in want if w[0] != glued]
+                if others_ok or (wl and (not gl or gl[0][1] != wl[0][1])):
+                    ctx.violation("C11|feb-29-message-directly-after-a-year-wrap|dated-as-its-predecessor",
+                                  "message %s (29 February, predecessor in the previous year) is printed with its predecessor's date" % glued, src_dir=c["d"],
+                                  files={"observed.stdout": r.out}, info=info)
+                    continue
             gt, wt = [g[0] for g in got], [w[0] for w in want]
             if gt == wt:
                 k = next(i for i in range(len(got)) if got[i] != want[i])
                 dy = round((got[k][1] - want[k][1]) / (365.25 * 86400))
                 filler = [g for g, w in zip(got, want) if g != w and g[1] < 5 * 365 * 86400]
-                if filler and len(filler) == sum(1 for g, w in zip(got, want) if g != w) and c["cont"] is not None and c.get("bsz", 65536) < 128 and name == "plain":
+                # a 29 February message whose predecessor lies in the previous year
+                bad_idx = [i for i, (g, w) in enumerate(zip(got, want)) if g != w]
+                feb29 = []
+                if True:
+                    byt = {m.token: m.ns for m in src.msgs}
+                    toks = [m.token for m in src.msgs]
+                    for i in bad_idx:
+                        tk = want[i][0]
+                        j = toks.index(tk) if tk in toks else -1
+                        cj = gen.civil(byt[tk], c["tz"]) if j >= 0 else None
+                        if j > 0 and cj is not None and cj[1] == 2 and cj[2] == 29 and gen.civil(src.msgs[j - 1].ns, c["tz"])[0] < cj[0]:
+                            feb29.append(i)
+                if feb29 and feb29 == bad_idx:
+                    sig = "C11|feb-29-message-directly-after-a-year-wrap|dated-as-its-predecessor"
+                elif filler and len(filler) == sum(1 for g, w in zip(got, want) if g != w) and c["cont"] is not None and c.get("bsz", 65536) < 128 and name == "plain":
                     # the messages at the start of a streamed file keep the filler year 1971/1972
                     sig = "C11|filler-year-left-on-first-messages|streamed-file|blocksz-below-128"
                 elif all(abs((g[1] - w[1])) >= 300 * 86400 for g, w in zip(got, want) if g != w):
